@@ -782,3 +782,6 @@ def coverage_extra(prop, tier, agg, jobs_):
             'all 4^6 x 3 x 2 = 24576 single-step configurations' if
             tier == 'thorough' and n_enum >= 24576 else
             'sampled (thorough tier enumerates it)'}
+
+
+RULE_MORE = {'C13': ' Added in the build rounds: relative arguments and three cwds, option order shuffled, same-named decoy carts in the PICO-8 carts folders under $HOME, a warm-up build with require() earlier in the process, sources reached through a symlink and `..`, file names containing $NAME of a set variable, valid carts under non-cart names, empty-string and directory arguments, .p8 sources that omit all-zero sections, a symlinked source cart with #include, and a directed history "rebuild after an edit that changes only the quote style".'}
